@@ -17,8 +17,10 @@ import (
 	"os/exec"
 	"path/filepath"
 	"reflect"
+	"regexp"
 	"strings"
 	"sync"
+	"time"
 
 	kmip "github.com/ovh/kmip-go"
 	"github.com/ovh/kmip-go/payloads"
@@ -575,8 +577,13 @@ func variationCase(c *core.Ctx, r *core.Rand, i int) {
 	if i%3 == 2 {
 		kind = "optional-element"
 	}
+	if i%8 == 7 {
+		kind = "attribute-order" // same elements and values, XML attributes written in another order / with other spacing
+	}
 	changed := 0
-	if kind == "value" {
+	if kind == "attribute-order" {
+		changed = 1
+	} else if kind == "value" {
 		t.Walk(func(path []int, n *wire.Node) {
 			if n.Type == wire.Structure || steering[n.Tag] || !r.P(1, 3) {
 				return
@@ -654,6 +661,18 @@ func variationCase(c *core.Ctx, r *core.Rand, i int) {
 		return
 	}
 	doc := xtree.WriteXML(t)
+	if kind == "attribute-order" {
+		doc = attrOrderRe.ReplaceAllFunc(doc, func(m []byte) []byte {
+			sm := attrOrderRe.FindSubmatch(m)
+			switch r.Intn(3) {
+			case 0:
+				return []byte(fmt.Sprintf(`<%s value="%s" type="%s"%s/>`, sm[1], sm[4], sm[3], sm[2]))
+			case 1:
+				return []byte(fmt.Sprintf("<%s\n   value = \"%s\"%s type='%s' />", sm[1], sm[4], sm[2], sm[3]))
+			}
+			return m
+		})
+	}
 	c.Count("variations."+kind, 1)
 	c.Distinct(core.HashBytes(doc))
 	out, outDoc, rej, ok := through(c, doc, v.response, "variation of an OASIS vector ("+kind+")")
@@ -661,7 +680,9 @@ func variationCase(c *core.Ctx, r *core.Rand, i int) {
 		return
 	}
 	if rej != nil {
-		if kind == "value" {
+		if kind == "attribute-order" {
+			c.Violation("C04:B:attribute-order-variation-rejected:"+c01.ErrClass(rej), fmt.Sprintf("a conformance vector whose XML attributes are written in another order is rejected: %v", rej), map[string]any{"document": clip(doc)})
+		} else if kind == "value" {
 			c.Violation("C04:B:value-variation-rejected:"+c01.ErrClass(rej), fmt.Sprintf("a conformance vector with other valid values of the same types is rejected: %v", rej), map[string]any{"document": clip(doc)})
 		} else {
 			// optionality is inferred from the corpus, not from the normative schema: a rejection is not judged
@@ -674,6 +695,117 @@ func variationCase(c *core.Ctx, r *core.Rand, i int) {
 			map[string]any{"document": clip(doc), "output": clip(outDoc)})
 	}
 }
+
+// concurrentDocs: several goroutines produce XML and JSON documents at the same moment; every message carries
+// enumeration values without a registered name (vendor range), different in every goroutine. Each document must be
+// exactly the one the same message gives when encoded alone.
+func concurrentDocs(c *core.Ctx, r *core.Rand, i int) {
+	for round := 0; round < 15; round++ {
+		concurrentRound(c, r, i*15+round)
+	}
+}
+
+func concurrentRound(c *core.Ctx, r *core.Rand, i int) {
+	const G = 8
+	per := 40
+	type job struct {
+		msg      *kmip.RequestMessage
+		xml, jsn []byte
+	}
+	jobs := make([][]job, G)
+	for g := 0; g < G; g++ {
+		for k := 0; k < per; k++ {
+			v := uint32(0x80000000 | uint32(g)<<16 | uint32(k)<<4 | uint32(r.Intn(16)))
+			m := &kmip.RequestMessage{Header: kmip.RequestHeader{ProtocolVersion: kmip.V1_4, BatchCount: 2},
+				BatchItem: []kmip.RequestBatchItem{
+					{Operation: kmip.OperationAddAttribute, RequestPayload: &payloads.AddAttributeRequestPayload{UniqueIdentifier: fmt.Sprintf("g%d-%d", g, k),
+						Attribute: kmip.Attribute{AttributeName: kmip.AttributeNameCryptographicAlgorithm, AttributeValue: kmip.CryptographicAlgorithm(v)}}},
+					{Operation: kmip.OperationAddAttribute, RequestPayload: &payloads.AddAttributeRequestPayload{UniqueIdentifier: "x",
+						Attribute: kmip.Attribute{AttributeName: "x-vendor", AttributeValue: ttlv.Value{Tag: kmip.TagAttributeValue, Value: ttlv.Enum(v + 1)}}}},
+				}}
+			jobs[g] = append(jobs[g], job{m, ttlv.MarshalXML(m), ttlv.MarshalJSON(m)})
+		}
+	}
+	type failure struct{ enc, want, got string }
+	fails := make(chan failure, 2*G*per)
+	start := make(chan struct{})
+	var wg sync.WaitGroup
+	for g := 0; g < G; g++ {
+		wg.Add(1)
+		go func(g int) {
+			defer wg.Done()
+			<-start
+			for _, j := range jobs[g] {
+				if got := ttlv.MarshalXML(j.msg); !bytes.Equal(got, j.xml) {
+					fails <- failure{"xml", string(j.xml), string(got)}
+				}
+				if got := ttlv.MarshalJSON(j.msg); !bytes.Equal(got, j.jsn) {
+					fails <- failure{"json", string(j.jsn), string(got)}
+				}
+			}
+		}(g)
+	}
+	close(start)
+	wg.Wait()
+	close(fails)
+	c.Count("concurrent_documents", int64(2*G*per))
+	c.Distinct(core.Hash64("c04-concurrent", fmt.Sprint(i)))
+	for f := range fails {
+		c.Violation("C04:A:"+f.enc+":concurrent-document-differs", "a "+f.enc+" document produced while other goroutines encode other messages is not the document the same message gives alone (it carries another message's value)",
+			map[string]any{"alone": clip([]byte(f.want)), "concurrently": clip([]byte(f.got))})
+	}
+}
+
+// vendorRegistration (fresh process): an application registers vendor extension values for standard enumerations;
+// documents written elsewhere that use the STANDARD names of those enumerations must still be read.
+func vendorRegistration(c *core.Ctx, r *core.Rand, i int) {
+	ttlv.RegisterEnum(kmip.TagCryptographicAlgorithm, map[kmip.CryptographicAlgorithm]string{0x80000001: "VendorCipher"})
+	ttlv.RegisterEnum(kmip.TagObjectType, map[kmip.ObjectType]string{0x80000001: "VendorObject"})
+	ttlv.RegisterEnum(kmip.TagOperation, map[kmip.Operation]string{0x80000001: "VendorOperation"})
+	ttlv.RegisterEnum(kmip.TagResultStatus, map[kmip.ResultStatus]string{0x80000001: "VendorStatus"})
+	for k := 0; k < 400; k++ {
+		minor := k % 5
+		g := gen.New(r, gen.Mode{Minor: minor, Gate: true, Text: gen.TextXML, TextDates: true, NamedEnums: true}, refmodel.Gates())
+		var msg any
+		var newPtr func() any
+		if k%2 == 0 {
+			m := g.Request(&gen.Ops[(k/2)%27])
+			msg, newPtr = &m, func() any { return &kmip.RequestMessage{} }
+		} else {
+			m := g.Response(&gen.Ops[(k/2)%27])
+			msg, newPtr = &m, func() any { return &kmip.ResponseMessage{} }
+		}
+		exp, err := refmodel.Tree(msg, minor)
+		if err != nil {
+			panic(err)
+		}
+		want := wire.Gen(exp)
+		for _, f := range []struct {
+			name  string
+			doc   []byte
+			unmar func([]byte, any) error
+		}{{"xml", xtree.WriteXMLNamed(exp), ttlv.UnmarshalXML}, {"json", xtree.WriteJSONNamed(exp), ttlv.UnmarshalJSON}} {
+			c.Count("vendor_registration_docs", 1)
+			back := newPtr()
+			var derr error
+			if p, pv, st := core.Guard(func() { derr = f.unmar(f.doc, back) }); p {
+				c.Violation(core.PanicSig(pv, st), fmt.Sprintf("%s decoder panicked: %v", f.name, pv), map[string]any{"document": clip(f.doc), "stack": st})
+				return
+			}
+			if derr != nil {
+				c.Violation("C04:B:"+f.name+":standard-names-unreadable-after-vendor-registration:"+c01.ErrClass(derr),
+					fmt.Sprintf("after vendor values were registered for four standard enumerations, a %s document written elsewhere with standard names is rejected: %v", f.name, derr), map[string]any{"document": clip(f.doc)})
+				return
+			}
+			if got := ttlv.MarshalTTLV(back); !bytes.Equal(got, want) {
+				c.Violation("C04:B:"+f.name+":information-differs-after-vendor-registration", "a document with standard names decodes to other information after vendor values were registered", map[string]any{"document": clip(f.doc)})
+				return
+			}
+		}
+	}
+}
+
+var attrOrderRe = regexp.MustCompile(`<([A-Za-z_0-9]+)((?: tag="[^"]*")?) type="([A-Za-z]+)" value="([^"']*)"/>`)
 
 func nOf(q, t int) func(string) int {
 	return func(tier string) int {
@@ -693,15 +825,34 @@ func Spec() *core.Spec {
 			"judged by encoding/xml + encoding/json (all) and expat + Python json (10% quick / all thorough), interpreted by the harness's own readers and compared with the reference layout, decoded and re-encoded to binary; " +
 			"ladders over long/big integers around ±2^52, every enumeration value named/unnamed, mask classes (0, single, all, unnamed bits, bit 31), text classes, date edges. " +
 			"B: every request/response message of the 419 shipped OASIS vector files whose operations are implemented, pushed through UnmarshalXML/MarshalXML and compared semantically with the harness's reading of the vector; " +
-			"value variations and corpus-derived optional-element removals. distinct = distinct layout shapes / documents",
+			"value variations and corpus-derived optional-element removals. plus vectors with XML attributes in another order, 8 goroutines producing documents with unnamed enumeration values at once, and (fresh process) standard names read after vendor values were registered for four enumerations. distinct = distinct layout shapes / documents",
 		Assumptions: []string{"TZ=UTC", "harness/xtree is an independent reading of KMIP 1.4 Profiles §5.4/§5.5 by the same author", "placeholders ($NOW, $UNIQUE_IDENTIFIER_n, …) are substituted before both sides see the vector",
 			"an element is optional in a context if the corpus contains an instance of that context without it; rejections of such removals are counted, not judged"},
-		Required: []string{"docs.xml", "docs.json", "py_judged.xml", "py_judged.json", "vectors_supported", "variations.value", "variations.optional-element", "ladder.enum-named", "ladder.mask-bit31", "ladder.text-json-control", "ladder.long-near-2^52"},
+		Required: []string{"docs.xml", "docs.json", "py_judged.xml", "py_judged.json", "vectors_supported", "variations.value", "variations.optional-element", "variations.attribute-order", "concurrent_documents", "vendor_registration_docs", "ladder.enum-named", "ladder.mask-bit31", "ladder.text-json-control", "ladder.long-near-2^52"},
+		// a data race inside the codec while documents are being produced means one document may carry another one's
+		// content: a violation when both stacks end in package ttlv (other reports print as diagnostics)
+		RaceVerdict: func(r core.RaceReport) (string, bool) {
+			in := func(st []string) string {
+				for k, f := range st {
+					if k < 3 && strings.Contains(f, "kmip-go/ttlv.") {
+						return f
+					}
+				}
+				return ""
+			}
+			if a, b := in(r.Frames[0]), in(r.Frames[1]); a != "" && b != "" {
+				return "C04:A:data-race-in-text-encoder:" + a, true
+			}
+			return "", false
+		},
 		Families: []core.Family{
 			{Name: "lib-messages", N: nOf(8100, 270000), Run: libMessages},
 			{Name: "scalar-ladder", N: nOf(6*47, 6*47*20), Run: scalarLadder},
 			{Name: "oasis-vectors", Exhaustive: true, N: func(string) int { return len(c02.OasisMessages()) }, Run: vectorCase},
 			{Name: "oasis-variations", N: nOf(6000, 200000), Run: variationCase},
+			// processes of their own, built with the race detector (see RaceVerdict)
+			{Name: "concurrent", Isolated: true, Race: true, N: nOf(2, 60), Run: concurrentDocs, Timeout: 120 * time.Second},
+			{Name: "vendor-registration", Isolated: true, N: nOf(1, 8), Run: vendorRegistration, Timeout: 120 * time.Second},
 			{Name: "py-flush", N: func(string) int { return 16 }, Run: func(c *core.Ctx, r *core.Rand, i int) { pyFlush(c) }},
 		},
 		Shards: func(string) int { return 16 },
